@@ -129,7 +129,7 @@ def case(idx, payload):
     full = impl_pybind(text, streams.TPL_MIN, "m", top, True, [], None)
     res["kinds"].append("pybind" + ("_enum" if has_enum else ""))
     mdl = model_pybind(fw.worker_driver(), text, streams.TPL_MIN, "m", top, True, [cpp], None)
-    if a != b and not has_enum:
+    if a != b:
         d = streams.first_diff(b[1], a[1]) if a[0] == b[0] == "ok" else dict(expected=str(b)[:200], got=str(a)[:200])
         res["bad"] = dict(kind="spec", what="pybind: ignoring class %s is not equivalent to deleting its declaration" % cpp,
                           input=text, input_deleted=text_del, ignore=[cpp], **d)
@@ -144,9 +144,9 @@ def case(idx, payload):
                 res["bad"] = dict(kind="spec", what="pybind: deleting class %s changes the binding of another class" % cpp,
                                   input=text, input_deleted=text_del, changed_block=blk[:400])
                 return res
-    # ---- MATLAB (namespaced classes; ignoring a global-scope class is a listed known finding)
-    if path:
-        key = "::".join(path) + "::" + inst_name
+    # ---- MATLAB (the ignore key is the qualified name without a leading `::`, for global classes the bare name)
+    if True:
+        key = "::".join(list(path) + [inst_name])
         ma = impl_matlab([text], "m", [key], True)
         mb = impl_matlab([text_del], "m", [], True)
         res["kinds"].append("matlab")
@@ -306,7 +306,7 @@ def main(ctx):
     ctx.extra["rule"] = ("coherent modules; one class that nothing else refers to (plain, or templated with one instantiation, global or "
                          "namespaced) is chosen; outputs for full / deleted / ignored inputs are compared for both generators")
     return fw.finish(ctx, search=lambda c: run(c, c.scale(300, 2000), off=77, collect=False),
-                     assumptions=["classes with enums are compared through the model only (pybind emits the enums of an ignored class: known finding)"])
+                     assumptions=["hand-written model of the generators, tied byte-exactly on generated inputs"])
 
 
 def replay(ctx, path):
